@@ -1016,10 +1016,8 @@ class Variable(CanBehaveLikeAVariable[T]):
                 self._is_false_ = is_false
             yield OperationResult(sources, is_false, self)
         elif self._domain_:
-            # a literal that is used as a condition (e.g., a python bool) is as true as its value
-            is_a_condition = isinstance(
-                self, Literal
-            ) and self._is_evaluated_as_a_condition_(parent)
+            # a variable (or a literal, e.g., a python bool) that is used as a condition is as true as its value
+            is_a_condition = self._is_evaluated_as_a_condition_(parent)
             for v in self._domain_:
                 yield OperationResult(
                     {**sources, self._id_: HashedValue(v)},
